@@ -1046,8 +1046,10 @@ class _L1DynamicsService(_CollinearDynamicsService):
             [min_x, max_x] interval for root finding in nondimensional units.
             L1 is between the primaries: -mu < x < 1-mu.
         """
-        # L1 is between the primaries: -mu < x < 1-mu
-        return [-self.mu + 0.01, 1 - self.mu - 0.01]
+        # L1 is between the primaries: -mu < x < 1-mu.  Its distance from the secondary is close to the
+        # Hill radius (mu/3)^(1/3), so the exclusion zone around the secondary must stay below that.
+        hill = (self.mu / 3.0) ** (1.0 / 3.0)
+        return [-self.mu + 0.01, 1 - self.mu - min(0.01, 0.5 * hill)]
 
     @property
     def _gamma_poly_def(self) -> Tuple[list, tuple]:
@@ -1120,8 +1122,9 @@ class _L2DynamicsService(_CollinearDynamicsService):
             [min_x, max_x] interval for root finding in nondimensional units.
             L2 is beyond the smaller primary: x > 1-mu.
         """
-        # L2 is beyond the smaller primary: x > 1-mu
-        return [1 - self.mu + 0.001, 2.0]
+        # L2 is beyond the smaller primary: x > 1-mu, at about one Hill radius (mu/3)^(1/3) from it.
+        hill = (self.mu / 3.0) ** (1.0 / 3.0)
+        return [1 - self.mu + min(0.001, 0.5 * hill), 2.0]
 
     @property
     def _gamma_poly_def(self) -> Tuple[list, tuple]:
